@@ -19,7 +19,7 @@ theorem itemPkt_code (c i : Int) (h0 : 0 ≤ i) (h1 : i < N) : itemPkt N (c * (N
   rw [Int.add_comm, Int.add_mul_emod_self_right]
   exact Int.emod_eq_of_lt h0 h1
 
-theorem itemPkt_codeOf (w : PutRec) (h0 : 0 ≤ w.1) (h1 : w.1 < N) : itemPkt N (codeOf N scale w) = w.1 :=
+theorem itemPkt_codeOf_af (w : PutRec) (h0 : 0 ≤ w.1) (h1 : w.1 < N) : itemPkt N (codeOf N scale w) = w.1 :=
   itemPkt_code _ _ h0 h1
 
 theorem cellVal_eq (k : Nat) : cellVal s k = lookup s.shared k := rfl
@@ -82,7 +82,7 @@ theorem itemOf_eq {tr : Array (Obs ℚ)} (hl : LInv a (histOf tr)) (hn : (a.puts
     (hw : w ∈ a.puts) (h0 : 0 ≤ w.1) (h1 : w.1 < N) :
     itemOf flow size N tr (codeOf N scale w) = itemW flow size w := by
   unfold itemOf itemW
-  rw [itemPkt_codeOf w h0 h1, keyOf_eq hl hn hw]
+  rw [itemPkt_codeOf_af w h0 h1, keyOf_eq hl hn hw]
 
 theorem nodup_of_mono {l : List PutRec} (h : l.Pairwise fun x y => x.1 < y.1 ∧ x.2.1 ≤ y.2.1) : (l.map (·.1)).Nodup := by
   rw [List.Nodup, List.pairwise_map]
